@@ -324,8 +324,27 @@ func (f *Frame) dispatch(st *State, e *ast.CallExpr, fn *types.Func, recv *Term,
 	}
 	for _, p := range pureIfacePrefixes {
 		if strings.HasPrefix(full, p) {
-			c.note("interface method " + shortFuncName(full) + " modelled as a pure function of (receiver, arguments)")
-			return f.uninterpCall(st, "ifc!"+shortFuncName(full), recv, args, sig)
+			c.note("interface method " + shortFuncName(full) + " modelled as a pure function of (receiver, arguments; pointer-to-struct arguments by content)")
+			// pointer-to-struct arguments are passed by content: the result depends on what the context holds,
+			// not on which object holds it
+			vals := make([]*Term, len(args))
+			for i, a := range args {
+				vals[i] = a
+				if i < sig.Params().Len() {
+					if el, isPtr := deref(sig.Params().At(i).Type()); isPtr {
+						if _, isStruct := types.Unalias(el).Underlying().(*types.Struct); isStruct && a.Sort == SInt {
+							work := st.clone()
+							content := f.load(work, f.ptrLoc(a, el))
+							if len(a.Args) == 0 && (strings.HasPrefix(a.Op, "|new!") || strings.HasPrefix(a.Op, "|iptr!")) {
+								vals[i] = content // freshly allocated / interior pointers are never nil
+							} else {
+								vals[i] = Ite(Eq(a, IntLit(0)), c.zero(el), content)
+							}
+						}
+					}
+				}
+			}
+			return f.uninterpCall(st, "ifc!"+shortFuncName(full), recv, vals, sig)
 		}
 	}
 	if fn.Pkg() != nil {
@@ -468,8 +487,10 @@ func (ch *Frame) bindParams(st *State, ft *ast.FuncType, info *types.Info, sig *
 func (ch *Frame) runBody(st *State, body *ast.BlockStmt, sig *types.Signature, ft *ast.FuncType) []*Term {
 	c := ch.c
 	savedDefers := st.defers
+	savedGuard := st.guard
 	st.defers = nil
 	work := st.clone()
+	work.guard = TTrue
 	end := ch.block(work, body.List)
 	if end != nil {
 		// fell off the end: implicit return
@@ -491,13 +512,17 @@ func (ch *Frame) runBody(st *State, body *ast.BlockStmt, sig *types.Signature, f
 	merged := live[0].st
 	vals := append([]*Term{}, live[0].vals...)
 	for _, r := range live[1:] {
-		cond := merged.pc
+		cond := merged.guard
+		if cond == nil || cond.Op == "true" {
+			cond = merged.pc
+		}
 		merged = c.merge2(merged, r.st)
 		for i := 0; i < n; i++ {
 			vals[i] = c.joinVal(cond, vals[i], r.vals[i], "ret")
 		}
 	}
 	merged.defers = savedDefers
+	merged.guard = savedGuard
 	*st = *merged
 	return vals
 }
